@@ -30,6 +30,7 @@ ENTS = [
     ("vpub", "var", "public", True, "lib"), ("vprot", "var", "protected", True, "lib"), ("vpriv", "var", "private", True, "lib"),
     ("uvpub", "var", "public", False, "lib"), ("uvpriv", "var", "private", False, "lib"),
     ("tpub", "type", "public", True, "lib"), ("tpriv", "type", "private", True, "lib"), ("utpub", "type", "public", False, "lib"),
+    ("tchild", "type", "public", True, "lib"),  # has a component of the private type: a relation to an unselected entity
     ("cpub", "comp", "public", True, "tpub"), ("cpriv", "comp", "private", True, "tpub"), ("ucpub", "comp", "public", False, "tpub"),
     ("bpub", "bind", "public", True, "tpub"), ("bpriv", "bind", "private", True, "tpub"),
     ("cq", "comp", "public", True, "tpriv"),
@@ -68,13 +69,14 @@ def source(meta):
           "    integer :: ucpub", "  contains", "    procedure :: bpub => bimpl1"] + doc("bpub", "    ") + ["    procedure, private :: bpriv => bimpl2"] + doc("bpriv", "    ") + ["  end type tpub",
           "  type :: tpriv"] + doc("tpriv", "    ") + ["    integer :: cq"] + doc("cq", "    ") + ["  end type tpriv",
           "  type :: utpub", "    integer :: uc2", "  end type utpub",
+          "  type :: tchild"] + doc("tchild", "    ") + ["    type(tpriv), pointer :: back => null()", "    type(tpub), pointer :: fwd => null()", "  end type tchild",
           "  interface", "    module subroutine smp()", "      !! TRCsmpifacex", "    end subroutine smp", "  end interface",
           "  abstract interface", "    subroutine apub()"] + doc("apub", "      ") + ["    end subroutine apub", "    subroutine apriv()"] + doc("apriv", "      ") + ["    end subroutine apriv", "  end interface",
           "  interface gpub"] + doc("gpub", "    ") + ["    module procedure gsp_pub_impl", "  end interface gpub",
           "  interface gpriv"] + doc("gpriv", "    ") + ["    module procedure gsp_priv_impl", "  end interface gpriv",
           "contains",
           "  subroutine spub(a)"] + m("spub", "    ") + doc("spub", "    ") + ["    integer :: a", "    !! TRCargax", "    integer :: lvar"] + doc("lvar", "    ") + [
-          "    type ltype"] + doc("ltype", "      ") + ["      integer :: lc", "    end type ltype", "    call inner()", "  contains", "    subroutine inner()"] + doc("inner", "      ") + ["    end subroutine inner", "  end subroutine spub",
+          "    type ltype"] + doc("ltype", "      ") + ["      integer :: lc", "    end type ltype", "    call inner()", "    call spriv()", "    a = fpub()", "  contains", "    subroutine inner()"] + doc("inner", "      ") + ["    end subroutine inner", "  end subroutine spub",
           "  subroutine spriv()"] + doc("spriv", "    ") + ["  end subroutine spriv",
           "  subroutine uspub()", "  end subroutine uspub",
           "  integer function fpub()"] + doc("fpub", "    ") + ["    fpub = 1", "  end function fpub",
@@ -141,31 +143,47 @@ def expected_selection(display, proc_internals, hide_undoc, overrides):
 
 OVERRIDE_SITES = [
     ("file-display", [None, ["private"], ["public"], ["none"], ["public", "private", "protected"]]),
-    ("lib-display", [None, ["private"], ["public"], ["none"], ["public", "private"]]),
-    ("tpub-display", [None, ["private"], ["public"], ["none"]]),
-    ("spub-display", [None, ["private"], ["public"], ["none"]]),
-    ("spub-proc_internals", [None, True, False]),
+    ("lib-display", [None, ["private"], ["public"], ["none"], ["public", "private"], ["private", "@KEY=Display"], ["none", "@KEY=DISPLAY"]]),
+    ("tpub-display", [None, ["private"], ["public"], ["none"], ["private", "@KEY=Display"]]),
+    ("spub-display", [None, ["private"], ["public"], ["none"], ["none", "@KEY=DISPLAY"]]),
+    ("spub-proc_internals", [None, True, False, "@KEY=Proc_Internals"]),
 ]
+# "@KEY=<spelling>": the metadata keyword written in another letter case (keywords are documented as case-insensitive)
 
 
-def run_config(st: Stats, display, proc_internals, hide_undoc, overrides, search):
+def run_config(st: Stats, display, proc_internals, hide_undoc, overrides, search, graph=False):
     meta = {}
-    for k, v in overrides.items():
+    raw_overrides = overrides
+    overrides = {}
+    for k, v in raw_overrides.items():
         level, key = k.split("-")
+        spelled = key
+        if isinstance(v, list):
+            marks = [x for x in v if str(x).startswith("@KEY=")]
+            v = [x for x in v if not str(x).startswith("@KEY=")]
+            if marks:
+                spelled = marks[0][5:]
+        elif isinstance(v, str) and v.startswith("@KEY="):
+            spelled, v = v[5:], True
+        overrides[k] = v
         if key == "display":
-            meta.setdefault(level, []).append("display: " + v[0])
+            meta.setdefault(level, []).append(f"{spelled}: " + v[0])
             for extra in v[1:]:
                 meta[level].append("         " + extra)
         else:
-            meta.setdefault(level, []).append(f"proc_internals: {'true' if v else 'false'}")
+            meta.setdefault(level, []).append(f"{spelled}: {'true' if v else 'false'}")
     src = source(meta)
     opts = dict(display=display if display else ["none"], proc_internals=proc_internals, hide_undoc=hide_undoc, incl_src=False, search=search, graph=False)
+    if graph:
+        # graphs drawn as HTML tables (first hop exceeds the node limit): their rows are links too
+        opts.update(graph=True, graph_maxnodes=1)
     r = fordrun.build({"src/lib.f90": src}, opts, stage="write", proj_body="front page\n")
     st.evaluations += 1
     stratum = "overrides:" + ("+".join(sorted(overrides)) or "none")
-    inp = dict(display=display, proc_internals=proc_internals, hide_undoc=hide_undoc, overrides={k: v for k, v in overrides.items()}, search=search)
+    inp = dict(display=display, proc_internals=proc_internals, hide_undoc=hide_undoc, overrides={k: v for k, v in raw_overrides.items()}, search=search, graph=graph)
     feats = dict(display="+".join(display) or "none", proc_internals=proc_internals, hide_undoc=hide_undoc, overrides="+".join(sorted(overrides)) or "none",
-                 file_display_override="file-display" in overrides)
+                 file_display_override="file-display" in overrides, graph=graph,
+                 key_case=any("@KEY=" in str(v) for v in raw_overrides.values()))
     st.nontrivial.add(core.digest(inp))
     try:
         if r.error is not None or r.stage_reached != "write":
@@ -231,7 +249,8 @@ def run_config(st: Stats, display, proc_internals, hide_undoc, overrides, search
 
 
 def work(job):
-    display, proc_internals, hide_undoc, bound, search = job
+    display, proc_internals, hide_undoc, bound, search, *more = job
+    graph = bool(more and more[0])
     st = Stats()
 
     def run(ch):
@@ -243,7 +262,7 @@ def work(job):
         return ov
 
     for ch, ov in explore(run, bound=bound):
-        run_config(st, list(display), proc_internals, hide_undoc, ov, search)
+        run_config(st, list(display), proc_internals, hide_undoc, ov, search, graph)
     return st
 
 
@@ -254,7 +273,7 @@ def replay(path):
     rec = json.loads(open(path).read())
     i = rec["input"]
     st = Stats()
-    run_config(st, i["display"], i["proc_internals"], i["hide_undoc"], i["overrides"], i.get("search", False))
+    run_config(st, i["display"], i["proc_internals"], i["hide_undoc"], i["overrides"], i.get("search", False), i.get("graph", False))
     print(i)
     for v in st.violations:
         print("REPRODUCED", v["clause"], v["features"].get("entity"), v["observed"])
@@ -273,6 +292,11 @@ def main(tier, replay_path=None):
             for pi in (False, True):
                 for hu in (False, True):
                     jobs.append((disp, pi, hu, 1 if tier == "quick" else (2 if disp in (("public", "protected"), ("public",), ()) else 1), tier == "thorough" or (pi and not hu)))
+    for k in range(0, 4):
+        for disp in itertools.combinations(perms, k):
+            for pi in (False, True):
+                for hu in (False, True) if tier == "thorough" else (False,):
+                    jobs.append((disp, pi, hu, 0 if tier == "quick" else 1, False, True))  # graphs as tables
     kk = core.SEED % 3
     jobs = jobs[kk:] + jobs[:kk]
     total = Stats()
